@@ -165,7 +165,11 @@ def run_impl(pcfg, pairs, d, rng=None):
     for f in sorted(os.listdir(d)):
         if f.startswith("in.") or f == "report.json" or not f.endswith("." + ext):
             continue
-        singles[f[: -len(ext) - 1]] = S.read_records(os.path.join(d, f))
+        try:
+            singles[f[: -len(ext) - 1]] = S.read_records(os.path.join(d, f))
+        except (ValueError, IndexError) as e:
+            # a record file this run wrote cannot be read back as records: reported by the sync oracle with this case as the input
+            res["files"]["UNPARSABLE:" + f] = [str(e).replace(d, "")]
     res["raw_counts"] = {k: len(v) for k, v in singles.items()}
     keys = {}
     for stem, recs in singles.items():
@@ -459,6 +463,12 @@ def rand_pcase(rng, focus=(), npairs=None):
                     ins = ins.lower()   # soft-masked insert: --action=lowercase must upper-case what it keeps
                 return ins + "".join(ads[j] if rng.random() < 0.8 else U.mutate(rng, ads[j], 1, "ACGT") for j in order)
             t1, t2 = stack(a1), stack(a2)
+            if par1[0] and rng.random() < 0.4:
+                # R1 carries a damaged copy that only the lenient rank accepts, R2 carries the R2 adapter of the strict rank (or of the
+                # lenient one): the pair is trimmed only if one rank, searched with its own parameters, matches both mates
+                strict = 1 if "e=0;" in par1[1] + ";" or par1[1].endswith("e=0") else 0
+                t1 = U.rand_seq(rng, rng.choice([4, 10]), "ACGT") + U.mutate(rng, a1[0], 1, "ACGT")
+                t2 = U.rand_seq(rng, rng.choice([4, 10]), "ACGT") + a2[strict if rng.random() < 0.7 else 1 - strict]
             new.append(((n1.split()[0], t1, None if q1 is None else "I" * len(t1)), (n2.split()[0], t2, None if q2 is None else "I" * len(t2))))
         pairs = new
     if stageorder:
